@@ -8,6 +8,7 @@ import (
 	"strconv"
 	"strings"
 	"testing"
+	"time"
 
 	"github.com/tochemey/goakt/v4/internal/chunk"
 	"github.com/tochemey/goakt/v4/internal/cluster"
@@ -243,6 +244,17 @@ func TestVerifC32Plan(t *testing.T) {
 	w := newVerifWriter(t, "c32_out.jsonl")
 	defer w.close()
 	for _, in := range ins {
-		w.put(c32Run(in))
+		// Chunkify does not terminate for a zero chunk size on a non-empty slice: a case that does not come
+		// back is reported with its input instead of hanging the whole run
+		done := make(chan c32Out, 1)
+		go func() { done <- c32Run(in) }()
+		select {
+		case o := <-done:
+			w.put(o)
+		case <-time.After(2 * time.Second):
+			// the runaway goroutine keeps allocating: report the input and end the run right away
+			w.put(c32Out{N: in.N, Kind: in.Kind, Err: "no result after 2s (non-termination?)"})
+			return
+		}
 	}
 }
